@@ -4,11 +4,41 @@ from vcommon import *
 import c18, front, frontgen, wirerun
 
 
+# every way a type expression can name a record or an enum (plain, array, map value, nested), in structs, messages and union branches, with tags and deprecations:
+# whatever Generate caches or rewrites while spelling these under one option set must not show under another
+VALID_MIX = """enum Color { Red = 1; Green = 2; }
+struct Item { int32 id; string name; }
+message Note { 1 -> string text; 2 -> Item item; }
+struct Bag {
+    //[tag(json:"items")]
+    map[string, Item] items;
+    map[uint8, Color] colors;
+    Item[] list;
+    map[guid, map[string, Note[]]] deep;
+    array[Color] cs;
+    date when;
+}
+message Box { 1 -> map[string, Item] m; 2 -> Color[] cs; [deprecated("x")] 3 -> Item old; 4 -> Bag bag; }
+union Either { 1 -> struct L { map[int32, Item] m; } 2 -> message R { 1 -> Item[] xs; } }
+const int32 k = 5;
+"""
+VALID_MIX_IMPORTS = ("""import "lib.bop"
+const string go_package = "example.com/root";
+struct Uses { map[string, LibItem] m; LibItem[] xs; LibColor c; map[uint16, LibNote[]] deep; }
+message M { 1 -> map[string, LibItem] m; 2 -> LibColor[] cs; }
+""", {"lib.bop": """const string go_package = "example.com/lib";
+enum LibColor { A = 1; B = 2; }
+struct LibItem { int32 id; map[string, LibColor] cs; }
+message LibNote { 1 -> LibItem item; }
+"""})
+VALID_MIX = (VALID_MIX, {})
+
+
 def check(tier, seed, replay=None):
     run = Run("C14", tier, seed)
     run.cov["rule"] = ("(a) concurrency: one File value (schemas with 0-3 imports, several go_packages with types used from each, separate and combined mode) shared by 16 goroutines calling "
                        "Generate and Validate repeatedly in a race-detector build: all outputs must be byte-identical, the File deep-equal before / after, no data race reported; "
-                       "(b) repetition: ReadFile, Validate and Format repeated 12 times on every testdata file and on generated schemas: identical File, identical bytes; "
+                       "(a') one File under 32 different option sets (private / tags / pointer receivers / unsafe x import mode), sequentially and from 8 goroutines: every output must equal what a freshly parsed File gives under the same options, File unchanged; (b) repetition: ReadFile, Validate and Format repeated 12 times on every testdata file and on generated schemas: identical File, identical bytes; "
                        "the text of a Validate error may differ only as listed in the known finding; distinct = distinct (schema, mode)")
     run.cov["trusted_base"] = TRUSTED_BASE_COMMON + ["the Go race detector as the witness of data races; the slice model of coq/sys/Sys.v (backing array, len, cap; append in place iff it fits)",
                                                      "translator T5 (go/cmd/t5): which receiver slices File.Generate appends to and whether each is cut to cap = len (or copied) before every append - decided "
@@ -50,6 +80,16 @@ def check(tier, seed, replay=None):
                     reps = 40 if tier == "thorough" else 12
                     ops.append("CONC %s %s 16 %d" % (mode, paths[0], reps))
                     metas.append(("concurrent-generate", "%d files, %d extra definitions, %s" % (n, extra_defs * 5, mode)))
+        # (a') ONE File, DIFFERENT option sets (32 of them), in sequence and from 8 goroutines: each output must be what a fresh File gives under those options
+        mixed = [VALID_MIX, VALID_MIX_IMPORTS]
+        for i, (root, others) in enumerate(mixed):
+            cd = os.path.join(d, "mix%d" % i)
+            os.makedirs(cd)
+            for name, txt in others.items():
+                open(os.path.join(cd, name), "w").write(txt)
+            open(os.path.join(cd, "root.bop"), "w").write(root)
+            ops.append("MIX %s 8 %d" % (os.path.join(cd, "root.bop"), 24 if tier == "thorough" else 8))
+            metas.append(("mixed-options", "schema %d" % i))
         # (b) repetition on files
         files = [os.path.join(REPO, name) for name, b in front.testdata_files()]
         asts = front.gen_asts(rng, 120 if tier == "thorough" else 30)
@@ -83,6 +123,9 @@ def check(tier, seed, replay=None):
         bad = None
         if g.startswith("CRASH"):
             bad = "the process died (the race detector aborts on a data race, exit status 66): %s" % g[:300]
+        elif kind == "mixed-options":
+            if g != "mix sequential-differing=0 concurrent-differing=0 file-changed=false":
+                bad = "Generate on one File under different option sets: %s" % g
         elif kind == "concurrent-generate":
             if "differing=0" not in g or "file-changed=false" not in g:
                 bad = "concurrent Generate calls on one File: %s" % g
